@@ -14,7 +14,7 @@ from streams.cluster import T0, hx
 
 NO_MODEL = True
 HEADER = 3
-REQUIRED_SHAPES = ["backup_fragment_checked", "primary_fragment_checked", "many_tables_before_compaction", "expired_by_ttl", "garbage_below_threshold", "destroy_during_compaction", "idle_tables_given_back", "fragment_without_garbage"]
+REQUIRED_SHAPES = ["backup_fragment_checked", "primary_fragment_checked", "many_tables_before_compaction", "expired_by_ttl", "garbage_below_threshold", "destroy_during_compaction", "idle_tables_given_back", "fragment_without_garbage", "entry_with_trailing_bytes"]
 
 
 class Oracle:
@@ -36,6 +36,10 @@ class Oracle:
             self.cfg = dict(kv.split("=") for kv in a if "=" in kv)
             self.compacted, self.peak = False, 0
             return None
+        if name == "c.rawerr":
+            self.hit("entry_with_trailing_bytes")
+            return None if reply == "syntax" or reply.startswith("other:") and "malformed" in reply else \
+                "DM.PUTENTRY with an encoded entry followed by extra bytes was answered %s (expected: refused as malformed)" % reply[:80]
         if name == "c.inter":
             self.compacted = False
             if reply.endswith("inner=-"):
@@ -152,6 +156,22 @@ class Gen:
         yield "clock %d" % now
         yield "bg.compact"
         yield "wb.slab dz swept"
+        # a replica write whose payload is an encoded entry FOLLOWED BY EXTRA BYTES is refused (a table that booked more bytes
+        # for an entry than its header says could never be emptied again, and the worker would never finish with it); either
+        # way the worker comes back and the tables stay within their bounds
+        import struct
+        for i in range(4):
+            kb = b"pe%d" % i
+            enc = bytes([len(kb)]) + kb + struct.pack(">QQQI", 0, now + i, now, 40) + b"e" * 40 + b"\x00" * r.choice([1, 7, 64])
+            yield "c.rawerr %d %s" % (r.randrange(n), " ".join(hx(t) for t in [b"dm.putentry", b"dm", kb, enc]))
+        for i in range(40):
+            ver += 1
+            yield "c.put emb %d dm %s %s" % (r.randrange(n), hx(b"pe%d" % (i % 4)), hx(b"o%d" % ver + b"q" * 90))
+        for i in range(4):
+            yield "c.del emb %d dm %s" % (r.randrange(n), hx(b"pe%d" % i))
+        yield "watchdog 20s"
+        yield "bg.compact"
+        yield "wb.slab dm"
         if getattr(self, "ep", 0) % 2 == 0:
             # the DMap is destroyed while the worker is about to compact one of its fragments (between picking the
             # fragment and locking it): the worker must come back, and compaction must go on afterwards
